@@ -30,7 +30,7 @@ ASSUMPTIONS = ['systems only log (timestep, id) in execute()', 'clock-warp cases
                'rejecting non-integers and n<1)']
 FLOORS = {'quick': {'decisions_ran': 5000, 'decisions_not_ran': 5000, 'multi_step_calls': 1000, 'rejected_n_value': 300,
                     'rejected_n_type': 300, 'windows_negative_start': 300, 'windows_end_before_start': 100,
-                    'late_registrations': 300, 'warp_cases': 20, 'box_windows': 200, 'spawn_cases': 200,
+                    'late_registrations': 300, 'warp_cases': 20, 'box_windows': 140, 'spawn_cases': 200,
                     'mid_step_registry_changes': 1000,
                     'reach:Core.Model.execute': 1000, 'reach:Core.SystemManager.execute_systems': 5000},
           'thorough': {'decisions_ran': 500000, 'decisions_not_ran': 500000, 'multi_step_calls': 100000,
